@@ -61,9 +61,9 @@ ADMISSIBLE = {                                # label_type=None: the statement d
     'list1': ['c', 'm'], 'list1n': ['c', 'm', 'r'], 'list1s': ['c', 'm'],
 }
 
-DENSE_F = [[10, 20], [11, 21], [12, 22], [13, 23]]
-SPARSE_F = [{'f': 10, 'g': 20}, {'g': 21}, {}, {'f': 13}]
-SPARSE_FI = [{1: 10, 2: 20}, {2: 21}, {}, {1: 13}]
+DENSE_F = [[10, 20], [11, 21], [12, 22], [13, 23], [14, 24]]
+SPARSE_F = [{'f': 10, 'g': 20}, {'g': 21}, {}, {'f': 13}, {'f': 14, 'g': 24}]
+SPARSE_FI = [{1: 10, 2: 20}, {2: 21}, {}, {1: 13}, {1: 14, 2: 24}]
 
 
 def label_value(lab, code):
@@ -261,6 +261,10 @@ def jaccard(S, Y):
     return len(S & Y) / len(S | Y)
 
 
+def case_sig(d, lab, lt, got):
+    return (d, lab, lt, len(got), srepr(got[0]['actions']) if got and isinstance(got[0], dict) and 'actions' in got[0] else None)
+
+
 class _Rec:
     def __init__(self): self.v = []; self.checked = 0
     def violation(self, key, what): self.v.append((key, what))
@@ -271,7 +275,7 @@ class C14(Check):
     LEVEL = 'exploration'
     ENGINE = 'ENUM'
     RULE = ('cases = (delivery, feature container, label position / addressing, label kind, label_type, take, label sequence): example sets of '
-            '0..3 (thorough 0..4) examples, example i has fixed features (dense width 0/1/2, sparse with varying key sets incl. {}, scalar, string '
+            '0..3 (thorough 0..5; multi-label 0..4) examples, example i has fixed features (dense width 0/1/2, sparse with varying key sets incl. {}, scalar, string '
             'scalar, None) and the label chosen by the sequence; ALL label sequences over a 3-letter universe per label kind (str, int incl. 0, '
             'float, Categorical with an unused declared level, [l] list-valued str/int, one-hot tuples; first-appearance order != sorted order) and, '
             'for multi-label, ALL sequences over the 8 subsets (incl. the empty set) of a 3-label universe (lists of str / int, tuples); label_type in '
@@ -298,23 +302,23 @@ class C14(Check):
         'an Environments-level finding is reported only when the raw SupervisedSimulation read of the same case is clean (same root cause, one key)',
     ]
     TECHNIQUE = 'bounded-exhaustive enumeration of labelled example sets x delivery forms x label columns x label types x take on the real SupervisedSimulation / Environments.from_supervised vs. a plain-Python reference model (distinct labels, 0/1, Jaccard, -|a-y|) and the real pipes.Reservoir on indexes'
-    LEVEL_TEXT = ('Every example set of <=3 (thorough <=4) examples over every label sequence of a 3-label universe (8 label sets for multi-label) x 11 delivery '
+    LEVEL_TEXT = ('Every example set of <=3 (thorough <=5, multi-label <=4) examples over every label sequence of a 3-label universe (8 label sets for multi-label) x 11 delivery '
                   'forms incl. real CSV/ARFF/LibSVM/Manik text x every label position x label types x take is turned into interactions by the real code and '
                   'compared with the statement; exhaustive below the bound, so the smallest failing example set of each failure class is found with certainty.')
-    LEVEL_NOTE = 'small-scope hypothesis: <=4 examples, <=3 distinct labels, <=2 features, one value per type; plain serialisations only; label-type inference unconstrained'
-    MIN_NONTRIVIAL = {'quick': 50000, 'thorough': 500000}
+    LEVEL_NOTE = 'small-scope hypothesis: <=5 examples, <=3 distinct labels, <=2 features, one value per type; plain serialisations only; label-type inference unconstrained'
+    MIN_NONTRIVIAL = {'quick': 70000, 'thorough': 700000}
     CASE_TIMEOUT = 30
 
     # -------------------------------------------------------------- enumeration
     def cases(self, tier):
-        maxn = 3 if tier == 'quick' else 4
+        maxn = 3 if tier == 'quick' else 5           # thorough: 5 examples for the single-label kinds, 4 for multi-label
         for n in range(0, maxn + 1):
             takes = [None] + [t for t in (0, 1, 2, n, n + 1) if t >= 0]
             takes = [t for i, t in enumerate(takes) if t not in takes[:i]]
             for d, f, w, col, by, lab in self.shapes(tier):
                 ncodes = 8 if lab in MULTI else 3
                 codes = [c for c in range(ncodes) if not (d in ('libsvm', 'manik') and lab in MULTI and not MSETS[c])]
-                if lab in MULTI and n == 4 and d not in ('xy', 'pairs', 'rows', 'srows', 'libsvm', 'manik'): continue
+                if lab in MULTI and (n == 5 or (n == 4 and d not in ('xy', 'pairs', 'rows', 'srows', 'libsvm', 'manik'))): continue
                 for lt in LABEL_TYPES[lab]:
                     for take in (takes if d != 'xy' else [None]):
                         if n == 0:
@@ -383,16 +387,36 @@ class C14(Check):
 
     # -------------------------------------------------------------- one case
     def run_case(self, case, acc):
+        acc.count('cases_' + case['d'])
+        report, nontrivial, outcomes = self._eval(case)
+        for o in outcomes: acc.outcome(o)
+        if nontrivial: acc.mark_nontrivial()
+        if not report: return
+        key, what = report[0]
+        if case.get('take') is not None and '|take given' not in key:
+            # classify: the same example set without take decides whether the sampling step or something else is at fault
+            base = {k: v for k, v in case.items() if k != 'take'}
+            rep0, _, _ = self._eval(base)
+            if rep0:
+                key, what = rep0[0]; case = base
+            else:
+                comp, mode, _ = key.split('|', 2)
+                key = f'{comp}|{mode}|only when take is given'
+        acc.violation(key, what, case)
+
+    def _eval(self, case):
+        """-> ([(key, what)] (at most the first finding), non-trivial?, [outcome signatures])"""
         d, lab, lt, ys = case['d'], case['lab'], case['lt'], case['ys']
         n = len(ys)
         take = case.get('take')
         make, feats, labs = build(case)
-        acc.count('cases_' + d)
         idx = list(range(n)) if take is None else list(Reservoir(take).filter(list(range(n))))
         kinds = [lt] if lt is not None else ADMISSIBLE[lab]
         rowform = ROWFORM[d]
         by = {'hdr': 'header', 'idx': 'index', None: 'none'}[case.get('by')]
         feat = f'{rowform} label_col={by}'
+        nontrivial = False
+        outcomes = []
 
         results = {}
         for level in ('raw', 'envs'):
@@ -408,7 +432,7 @@ class C14(Check):
                     got = list(envs[0].read())
             except Exception as e:   # noqa
                 if not idx:            # no example (left): the readers / Finalize may reject an empty data set: not demanded
-                    acc.outcome(level + ':empty rejected:' + type(e).__name__); results[level] = []; continue
+                    outcomes.append(level + ':empty rejected:' + type(e).__name__); results[level] = []; continue
                 results[level] = [(f'{comp}|read raises {type(e).__name__}|{feat} label_type={lt}', f'read of {case} raised {e!r}')]
                 continue
             best = None
@@ -420,12 +444,11 @@ class C14(Check):
             results[level] = best.v
             if level == 'raw':
                 ndist = len({repr(labs[j]) for j in idx})
-                if got and (kinds[0] != 'c' or ndist >= 2): acc.mark_nontrivial()
-                acc.outcome((d, lab, lt, len(got), repr(got[0]['actions']) if got and isinstance(got[0], dict) and 'actions' in got[0] else None))
+                if got and (kinds[0] != 'c' or ndist >= 2): nontrivial = True
+                outcomes.append(case_sig(d, lab, lt, got))
         # an envs-level finding is reported only when the raw read of the same case is clean (one root cause, one key)
         report = results['raw'] or results['envs']
-        for key, what in report[:1]:
-            acc.violation(key, what)
+        return report[:1], nontrivial, outcomes
 
     # -------------------------------------------------------------- the reference model
     def compare(self, comp, level, kind, got, idx, feats, labs, case, feat, rec):
